@@ -151,7 +151,9 @@ def judge(res, lab, h, segs, extras, info, m):
                       and not xb.get("writing", False) and not loss_after)
     # frames left in the read queue with no live consumer while nothing is connected: the read-queue side of F1
     read_starved0 = xb.get("rqsize", 0) > 0 and xb["classes"].get("k", 0) == 0 and before["c"] == "0"
-    drains = (idle_drains or sending_drains) and not read_starved0
+    # (a user callback that holds a frame while close() is called - harness gate G not yet released - delays close() for as long
+    # as the user likes: not a state that drains within the I/O time-outs)
+    drains = (idle_drains or sending_drains) and not read_starved0 and not xb.get("gate_closed")
     bound = (q0 + 1) * max(connspec.RT, connspec.WT)
     issued = states[zpos]["z"] != "n"
     if not issued:
@@ -324,6 +326,91 @@ def read_queue_variant(res):
             loop.close()
 
 
+def held_open_variant(res, tier):
+    """close() while a reconnect attempt of the connection's OWN retry chain (second or later attempt: a task of the
+    Connection, not of the protocol) is in flight, the attempt succeeding at each of the event-loop iterations between the
+    start of close() and its return (implementation only: the machine's close() is one step, `cancelConn` first - the
+    connection's tasks are cancelled before anything else, so a late success finds nobody).  `_open_connection` of the
+    held attempt waits for the harness; it is released k loop iterations after close() was started (k = 0 .. 24), or
+    close() is started j iterations after the release.  Afterwards: close() returned, no library task pending, every
+    transport ever opened is closed."""
+    import asyncio
+    from asyncio import events
+
+    import connfake
+    import vloop
+
+    class HeldConn(connfake.ScriptedConnection):
+        nopen = 0
+        hold_from = 3
+
+        @connfake.timeout(connfake.CONNECT_TIMEOUT)
+        async def _open_connection(self):
+            self.nopen += 1
+            if self.nopen >= self.hold_from:
+                await self.go.wait()
+            return await connfake.scripted_open(self)
+
+    def spin(loop, n):
+        events._set_running_loop(loop)
+        try:
+            for _ in range(n):
+                if not loop._ready:
+                    break
+                loop._run_once_nonblocking()
+        finally:
+            events._set_running_loop(None)
+
+    offsets = list(range(0, 25)) + [-1, -2, -3]
+    for with_device in (True, False):
+        for off in offsets:
+            loop = vloop.new_loop()
+            conn = HeldConn(script=["ok", "err", "ok", "ok"], reconnect_on_failure=True)
+            conn.go = asyncio.Event()
+            loop.create_task(conn.connect(), name="harness-connect")
+            connfake.settle(loop)
+            if with_device:
+                conn.readers[-1].feed_data(connfake.password_frame())
+                connfake.settle(loop)
+            conn.readers[-1].feed_eof()
+            connfake.settle(loop)            # loss; the first attempt (inside the protocol's loss handler) fails
+            connfake.settle(loop, 20.037)    # back-off over: the retry runs as a task of the connection, its open is held
+            held = conn.nopen >= conn.hold_from
+            if off < 0:
+                conn.go.set()
+                spin(loop, -off)
+            close = loop.create_task(conn.close(), name="harness-close")
+            if off >= 0:
+                spin(loop, off)
+                conn.go.set()
+            connfake.settle(loop, 21.0)
+            left = sorted(t.get_coro().cr_code.co_name for t in asyncio.all_tasks(loop) if not t.done() and t is not close)
+            unclosed = [w.tid for w in conn.writers if not w.closed]
+            hist = (f"held-open: connect, {'password frame, ' if with_device else ''}EOF, first reconnect attempt fails, back-off, second attempt "
+                    f"(connection's own task) in flight; close() and the attempt succeeding {off} loop iteration(s) later")
+            res.case(hist, True)
+            res.count("held-open:" + ("attempt-in-flight" if held else "not-held"))
+            if not close.done():
+                res.fail("spec", dict(history=hist), "close() returns (it never deadlocks)",
+                         f"close() blocked in {connrun.coro_chain(close)}", "close() returns")
+            elif left or unclosed:
+                res.fail("spec", dict(history=hist), "no task created by the protocol, the connection, a device or a sub-device is left pending; the transport is closed",
+                         f"after close() returned: tasks {left}, transports never closed {unclosed} (opened: {len(conn.writers)})",
+                         "no task left, every transport closed")
+            events._set_running_loop(loop)
+            try:
+                for t in asyncio.all_tasks(loop):
+                    t.cancel()
+                for _ in range(30):
+                    if not loop._ready:
+                        break
+                    loop._run_once()
+            finally:
+                events._set_running_loop(None)
+                asyncio.set_event_loop(None)
+                loop.close()
+
+
 def run(ctx):
     rng = random.Random(ctx["seed"] * 15485863 + 12)
     res = Result("C12")
@@ -346,6 +433,7 @@ def run(ctx):
             res.notes.append(f"stopped after {i + B} histories: {len(res.failures)} failures already")
             break
     read_queue_variant(res)
+    held_open_variant(res, ctx["tier"])
     res.extra["partial"] = ("liveness is checked for the real event loop on generated histories and proved for the modelled scheduler; "
                             "F1 (unbounded Queues.join) is an open known finding")
     return res
